@@ -21,6 +21,7 @@ BUDGET = {"quick": 300, "thorough": 3000}
 CASE_TIMEOUT = int(os.environ.get("VERIF_CASE_TIMEOUT", "420"))
 TEAMS = [2, 3, 4, 5, 7, 8, 13, 16, 17, 32, 61]
 TEAM_W = [6, 5, 6, 3, 4, 5, 2, 4, 2, 2, 1]
+OTHER_TEAMS = [6, 9, 10, 11, 12, 14, 15, 18, 19, 20, 21, 23, 24, 28, 31, 48, 64]  # any size is legal
 STRATS = ["random", "rtc_perm", "round_robin", "starve_one", "greedy_one", "reverse", "rtc_id"]
 POISONS = [0xA5, 0x5A, 0xFF, 0x7F]
 # window_pct choices for workloads that run few distinct region functions per call
@@ -64,6 +65,10 @@ def init_group(g):
 
     _sim = simctl.Sim()
     _variant = g
+    # default IEEE floating-point environment in this thread and for the simulated worker pool
+    # (some third-party library loaded above was built with fast-math and switched
+    # flush-to-zero on for the interpreter's main thread)
+    _sim.lib.simgomp_reset_fpenv()
     # prove that the CiderPress libraries are bound to the simulator (not a real libgomp)
     from cidersim.workloads import omp_workloads as W
 
@@ -91,7 +96,7 @@ def warm(args):
 
 def draw_sched(rng, variant, small=False):
     s = {
-        "nthreads": rng.weighted(list(zip(TEAMS, TEAM_W))),
+        "nthreads": rng.weighted(list(zip(TEAMS, TEAM_W))) if rng.chance(0.75) else rng.choice(OTHER_TEAMS),
         "strategy": rng.choice(STRATS),
         "chunk_shuffle": int(rng.chance(0.5)),
         "poison": rng.choice(POISONS),
@@ -237,6 +242,15 @@ def compare(ref, out):
             continue
         fin = ~(na | ia)
         if not fin.any():
+            continue
+        # a subnormal that became exactly zero (or the reverse): not reassociation (sums of
+        # subnormals are exact) but a different floating-point environment in some thread
+        tiny = np.finfo(np.float64).tiny
+        sub_a = fin & (a != 0) & (np.abs(a) < tiny) & (b == 0)
+        sub_b = fin & (b != 0) & (np.abs(b) < tiny) & (a == 0)
+        if (sub_a | sub_b).any():
+            k = int(np.argmax(sub_a | sub_b))
+            bad.append((name, "subnormal-flushed", "%d elements; first at %d: ref=%r got=%r" % (int((sub_a | sub_b).sum()), k, a[k], b[k])))
             continue
         af, bf = a[fin], b[fin]
         scale = float(np.max(np.abs(af)))
